@@ -103,14 +103,14 @@ def _instances(targets, tier, first_only=False):
 # quick tier: designs that are compiled with non-default OPTIONS (bounds the number of (design, options) goldens)
 OPT_DESIGNS = ["name_collisions", "class_helper_objects", "prefix_named", "sync_flag_delay", "inline_entity",
                "comb_logic"]
-QUICK_SHARDS = {"hist": 6, "ixv": 4, "vxv": 3, "opt": 1, "hashseed": 2}
-QUICK_STRIDE = {"ixv": 5, "vxv": 9}  # quick: every n-th ordered pair per victim (rotating); thorough: all pairs
+QUICK_SHARDS = {"hist": 6, "ixv": 4, "vxv": 3, "opt": 1, "hashseed": 1}
+QUICK_STRIDE = {"ixv": 6, "vxv": 14}  # quick: every n-th ordered pair per victim (rotating); thorough: all pairs
 
 
 def plan(tier):
     quick = tier == "quick"
     shards = []
-    n_hyp, per, maxlen = (QUICK_SHARDS["hist"], 12, 8) if quick else (48, 60, 24)
+    n_hyp, per, maxlen = (QUICK_SHARDS["hist"], 10, 8) if quick else (48, 60, 24)
     for i in range(n_hyp):
         shards.append({"kind": "hyp", "name": f"hist{i}", "examples": per, "maxlen": maxlen, "pool": i, "tier": tier})
     for space, n_thorough in (("ixv", 24), ("vxv", 24), ("hashseed", 12), ("opt", 8)):
@@ -213,9 +213,9 @@ def _enumerate_quick(shard):
             yield {"designs": [vd], "ops": [["c", 0, vt, B], ["a", 0, vt], ["c", 0, vt, B]]}
     elif space == "hashseed":
         for k, (n, v, t) in _enumerate(_quick_victims()):
-            if k % parts == part:
-                # one extra fresh interpreter per design; the seed values rotate over the designs
-                yield {"designs": [_dspec(n, v)], "ops": [["c", 0, t]], "hashseeds": [0, SEEDS_QUICK[1 + k % 3]]}
+            if k % 2 == 0 and (k // 2) % parts == part:
+                # every second design, one extra fresh interpreter each; the seed values rotate over the designs
+                yield {"designs": [_dspec(n, v)], "ops": [["c", 0, t]], "hashseeds": [0, SEEDS_QUICK[1 + (k // 2) % 3]]}
     else:
         raise HarnessError(f"unknown space {space}")
 
